@@ -115,7 +115,7 @@ def window_worker(part, chunk, method, dims, budget=1.0):
                 v = single(n, D)
                 part.tr()
                 d = np.abs(v - B[n - s]).max() if v.shape == (D,) else np.inf
-                if d > tol:
+                if not (d <= tol):
                     part.fail("batch-vs-single:" + key, "%s: seed %d in window [%d,%d], D=%d: single-point vector differs from the batch row by %g" % (method, n, s, s + k, D, d), case)
                     break
             # prefix consistency: depends only on (seed, dimension)
